@@ -10,7 +10,9 @@ import (
 	"io"
 	"log"
 	"net/http"
+	"runtime"
 	"strings"
+	"sync"
 	"time"
 
 	"github.com/WICG/webpackage/go/signedexchange"
@@ -70,6 +72,7 @@ func run(r *mon.Run) {
 	}
 	quiet := log.New(io.Discard, "", 0)
 	sharedSigners := map[*gen.Identity]*signedexchange.Signer{}
+	var kept []written
 	for i := 0; i < n; i++ {
 		if !r.Mine(i) {
 			continue
@@ -246,6 +249,9 @@ func run(r *mon.Run) {
 			bad("HEADER-INTEGRITY-DIFFERS", fmt.Sprintf("ComputeHeaderIntegrity=%q (%v), reference %q", hi, herr, rsxg.HeaderIntegrity(ref)), nil)
 			continue
 		}
+		if fits && len(wantF) < 20000 && len(kept) < 96 {
+			kept = append(kept, written{e, wantF, desc})
+		}
 		r.Eval("conforms")
 		r.Distinct(fmt.Sprintf("%s|c%d|chain%d|u%s|v%s|h%d|hb%s|d%s|%v", ver, id.Key.Curve.Params().BitSize, len(id.Certs), cls(len(spec.URL)), cls(len(spec.ValidityURL)), nh, cls(len(wantH)), cls(int(d)), fits))
 		if i%101 == 0 {
@@ -300,6 +306,53 @@ func run(r *mon.Run) {
 		}
 		_ = quiet
 	}
+	// different exchanges are serialized at the same time by several goroutines, each into a writer that yields
+	// between writes (a network connection): every file must still be exactly the reference layout
+	if len(kept) >= 4 {
+		var wg sync.WaitGroup
+		var mu sync.Mutex
+		for rounds := 0; rounds < 6; rounds++ {
+			for gi := 0; gi < 8; gi++ {
+				wg.Add(1)
+				go func(gi, rounds int) {
+					defer wg.Done()
+					for k := gi; k < len(kept); k += 8 {
+						w := kept[(k+rounds*3)%len(kept)]
+						var sink slowWriter
+						err := w.e.Write(&sink)
+						hi, herr := w.e.ComputeHeaderIntegrity()
+						okc := err == nil && bytes.Equal(sink.b, w.want) && herr == nil && strings.HasPrefix(hi, "sha256-")
+						mu.Lock()
+						if okc {
+							r.Eval("concurrent-write-conforms")
+						} else {
+							r.Eval("CONCURRENT-WRITE-DIFFERS")
+							r.Violation("sx:concurrent:"+w.desc, fmt.Sprintf("exchange (%s) written while other exchanges were being written by other goroutines differs from the reference layout at byte %d (err=%v)", w.desc, firstDiff(sink.b, w.want), err), nil)
+						}
+						mu.Unlock()
+					}
+				}(gi, rounds)
+			}
+			wg.Wait()
+		}
+		r.Distinct("concurrent-writes")
+	}
+}
+
+type written struct {
+	e    *signedexchange.Exchange
+	want []byte
+	desc string
+}
+
+// slowWriter yields between writes.
+type slowWriter struct{ b []byte }
+
+func (s *slowWriter) Write(p []byte) (int, error) {
+	s.b = append(s.b, p...)
+	runtime.Gosched()
+	time.Sleep(20 * time.Microsecond)
+	return len(p), nil
 }
 
 func cls(n int) string {
